@@ -492,8 +492,8 @@ inline uint64_t expand(uint64_t seed, uint64_t index) {
 // min_interval_length, persistence_dim_max = false.
 inline RunSpec decode_run(vf::Tape& t, const Palette& pal, int family_prime, vf::Ctx& ctx, bool* on_second_carrier = nullptr) {
   static const int small[] = {2, 3, 5, 7, 11, 13};
-  static const int medium[] = {17, 251, 1009};
-  static const int large[] = {46337, 46327, 32749};
+  static const int medium[] = {17, 251, 1009, 1999};
+  static const int large[] = {46337, 46327};
   static const int ranges[][2] = {{2, 3}, {2, 7}, {3, 13}, {5, 5}, {2, 2}, {2, 13}, {4, 6}, {3, 5}};
   RunSpec rs;
   const uint32_t n = uint32_t(pal.v.size());
@@ -507,9 +507,9 @@ inline RunSpec decode_run(vf::Tape& t, const Palette& pal, int family_prime, vf:
     rs.field.lo = ranges[x % 8][0];
     rs.field.hi = ranges[x % 8][1];
   } else if (kind == 2) {
-    rs.field.p = medium[x % 3];
+    rs.field.p = medium[x % 4];
   } else {
-    rs.field.p = large[x % 3];
+    rs.field.p = large[x % 2];
     ctx.hit("field:large-prime");
   }
   unsigned y = t.u8();
